@@ -60,7 +60,7 @@ theorem timer_model_accepted (r : TimerRun) (h : TimerWF r) :
     accepts { op := .timer, d := r.d } (timerTrace r) = true := timer_model_accepts r h
 
 theorem range_model_accepted (r : RangeRun) (h : RangeWF r) :
-    accepts { op := .rangeWithInterval, d := r.p, a := r.a, b := r.b } (rangeTrace r) = true :=
+    accepts { op := .rangeWithInterval, d := r.p, a := r.a, b := r.b, step := r.step } (rangeTrace r) = true :=
   range_model_accepts r h
 
 /-- IntervalWithInitial, every `initial ≥ 0` and every `interval > 0`: value k never before
@@ -181,8 +181,26 @@ theorem accepted_timer {cfg : Cfg} {tr : TimedTrace} (hop : cfg.op = .timer) (h 
 
 theorem accepted_range {cfg : Cfg} {tr : TimedTrace} (hop : cfg.op = .rangeWithInterval) (h : accepts cfg tr = true)
     {k : Nat} {dl : Ev} (hk : tr.dels[k]? = some dl) (v : Int) (hv : dl.n = .next v) :
-    k < (cfg.b - cfg.a).natAbs ∧ v = (if cfg.a ≤ cfg.b then cfg.a + (k : Int) else cfg.a - (k : Int))
+    k < rangeCount cfg.a cfg.b cfg.step ∧ v = rangeVal cfg.a cfg.b cfg.step k
       ∧ tr.sub + (k + 1) * cfg.d ≤ dl.t0 := accepts_range hop h hk v hv
+
+/-- RangeWithInterval / RangeWithStepAndInterval never complete short: the completion follows exactly ⌈|b-a| / step⌉
+    values (or a cancellation) — the whole range `[a : b)`, every value of it -/
+theorem accepted_range_complete {cfg : Cfg} {tr : TimedTrace} (hop : cfg.op = .rangeWithInterval) (h : accepts cfg tr = true)
+    {k : Nat} {dl : Ev} (hk : tr.dels[k]? = some dl) (hc : dl.n = .complete) :
+    k = rangeCount cfg.a cfg.b cfg.step ∨ CancelledBy tr dl.t0 := accepts_range_complete hop h hk hc
+
+/-- the range `[a : b)` in steps of `step` has a value for every `k·step < |b-a|` and no other: the count is exact -/
+theorem rangeCount_exact (a b : Int) (step k : Nat) (hs : 0 < step) :
+    k < rangeCount a b step ↔ k * step < (b - a).natAbs := by
+  unfold rangeCount
+  rw [Nat.lt_div_iff_mul_lt hs]
+  constructor <;> intro h <;> omega
+
+-- non-vacuity: 0 up to 5 in steps of 2 is three values (the pinned tree delivered two: floor instead of ceiling)
+example : rangeCount 0 5 2 = 3 ∧ rangeVal 0 5 2 2 = 4 := by decide
+example : (rangeTrace { a := 0, b := 5, step := 2, p := 10, sub := 0, ticks := [11, 25, 31, 44], stop := none, unsub := none }).dels
+    = [Ev.at 11 (.next 0), Ev.at 25 (.next 2), Ev.at 31 (.next 4), Ev.at 31 .complete] := by decide
 
 theorem accepted_throttle {cfg : Cfg} {tr : TimedTrace} (hop : cfg.op = .throttleTime) (h : accepts cfg tr = true)
     {k : Nat} {dl pd : Ev} (hk : tr.dels[k+1]? = some dl) (hp : tr.dels[k]? = some pd) (hv : dl.n.isTerminal = false) :
@@ -261,6 +279,8 @@ end Ro.C16
 #print axioms Ro.C16.accepted_intervalWithInitial
 #print axioms Ro.C16.accepted_timer
 #print axioms Ro.C16.accepted_range
+#print axioms Ro.C16.accepted_range_complete
+#print axioms Ro.C16.rangeCount_exact
 #print axioms Ro.C16.accepted_throttle
 #print axioms Ro.C16.accepted_sample
 #print axioms Ro.C16.accepted_buffer
